@@ -82,13 +82,20 @@ static void c36_run(struct evdns_base *base, const char *name, int name_len)
 	u8 *bobj = malloc(C36_BUFMAX);
 	u8 *buf;
 	int rlen, encodable, edns, is_dot;
-	size_t buf_len;
+	size_t buf_len, need_len;
 	u16 id = vp_u16(), type = vp_u16(), klass = vp_u16();
 	__CPROVER_assume(bobj);
 	base->global_max_udp_size = vp_u16();
 	edns = base->global_max_udp_size > 512;
 	buf_len = evdns_request_len(base, (size_t)name_len); /* what request_new allocates */
 	VP_ASSERT(buf_len <= C36_BUFMAX, "harness: buffer bound");
+	need_len = buf_len;
+#ifdef C36_BUFLIT
+	/* long names: literal buffer length (a symbolic one makes every offset after the name an
+	 * if-then-else over the overflow exits); that the query fits what request_new allocates is
+	 * asserted explicitly below, the canary covers [need_len, C36_BUFMAX). */
+	buf_len = C36_BUFMAX;
+#endif
 #ifdef C36_TAIL
 	buf = bobj + (C36_BUFMAX - buf_len); /* exact: [buf, buf+buf_len) ends with the object */
 #else
@@ -109,7 +116,7 @@ static void c36_run(struct evdns_base *base, const char *name, int name_len)
 	rlen = evdns_request_data_build(base, name, (size_t)name_len, id, type, klass, buf, buf_len);
 
 #ifndef C36_TAIL
-	{ size_t ci; for (ci = 0; ci < C36_BUFMAX; ci++) if (ci >= buf_len) VP_ASSERT(bobj[ci] == 0xA5, "C36: evdns_request_data_build wrote beyond buf_len"); }
+	{ size_t ci; for (ci = 0; ci < C36_BUFMAX; ci++) if (ci >= need_len) VP_ASSERT(bobj[ci] == 0xA5, "C36: evdns_request_data_build wrote beyond the evdns_request_len() bytes request_new allocates"); }
 #endif
 	if (rlen < 0) {
 		if (!is_dot)
@@ -117,7 +124,7 @@ static void c36_run(struct evdns_base *base, const char *name, int name_len)
 		if (!encodable) VP_WITNESS("unencodable name refused");
 		return;
 	}
-	VP_ASSERT((size_t)rlen <= buf_len, "C36: query longer than its buffer");
+	VP_ASSERT((size_t)rlen <= need_len, "C36: query longer than its buffer");
 	if (!is_dot) {
 		VP_ASSERT(encodable, "C36: unencodable name (empty label: leading/consecutive dots; label > 63; wire form > 255 octets) was encoded and would be transmitted malformed");
 		if (!encodable) return;
